@@ -448,6 +448,25 @@ func WrittenNoSentinels(lines []string) string {
 type ConnOptions struct {
 	SASL      bool // Config.SASL = SASLPlain
 	NoRecover bool // a handler panic is not absorbed (as with RecoverFunc == nil): the process dies
+	App       bool // RecoverFunc set, and application handlers (Add, AddBg, AddTmp) that panic on some lines
+}
+
+// registerPanickyApp installs application handlers of the three kinds (foreground, background,
+// temporary) that panic on some server lines, the way careless application code does.
+func registerPanickyApp(c *girc.Client) {
+	// foreground: Commands.Reply is documented to panic for an event without a source
+	c.Handlers.Add(girc.PRIVMSG, func(c *girc.Client, e girc.Event) { c.Cmd.Reply(e, "ok") })
+	// foreground: write to a nil map
+	c.Handlers.Add(girc.NOTICE, func(c *girc.Client, e girc.Event) {
+		var seen map[string]int
+		seen[e.Last()]++
+	})
+	// background: index out of range on a short parameter list
+	c.Handlers.AddBg(girc.TOPIC, func(c *girc.Client, e girc.Event) { _ = e.Params[1] + e.Params[2] })
+	// temporary: panics the first time it runs with fewer than four parameters
+	c.Handlers.AddTmp(girc.KICK, 0, func(c *girc.Client, e girc.Event) bool { return e.Params[3] == "" })
+	// foreground, on a numeric: nil pointer
+	c.Handlers.Add("366", func(c *girc.Client, e girc.Event) { _ = e.Source.Name })
 }
 
 // mayDisconnect: events after which the client may decide to disconnect with an error.
@@ -473,7 +492,23 @@ func RunConnected(nick, user string, evs []Ev, opt ConnOptions) (obs, oracle str
 	if opt.NoRecover {
 		cfg.RecoverFunc = func(c *girc.Client, e *girc.HandlerError) { panic(e) }
 	}
+	var internalPanics, appPanics int64
+	if opt.App {
+		// a recovered panic of an APPLICATION handler is the application's business; the client
+		// must go on. Only a panic that does not come from the handlers below counts.
+		cfg.RecoverFunc = func(c *girc.Client, e *girc.HandlerError) {
+			if strings.Contains(string(e.Stack), "suites.registerPanickyApp") {
+				atomic.AddInt64(&appPanics, 1)
+				return
+			}
+			atomic.AddInt64(&internalPanics, 1)
+		}
+	}
 	ss := drive.Start(cfg)
+	if opt.App {
+		registerPanickyApp(ss.C)
+	}
+	panicCount := func() int { return ss.PanicCount() + int(atomic.LoadInt64(&internalPanics)) }
 	var general int64 // UPDATE_GENERAL notifications seen
 	ss.C.Handlers.Add(girc.UPDATE_GENERAL, func(c *girc.Client, e girc.Event) { atomic.AddInt64(&general, 1) })
 	healthy := true // after a wedge / missing PONG verdict the client is abandoned, not stopped
@@ -499,6 +534,25 @@ func RunConnected(nick, user string, evs []Ev, opt ConnOptions) (obs, oracle str
 		default:
 		}
 	}
+	// loopStuck: events are waiting in the receive queue, and for 2.5 s (and 200 looks) neither
+	// has the queue moved nor has the client written anything: execLoop no longer takes events
+	// (handlers take microseconds; nothing on these routes sleeps in a foreground handler).
+	stuck := false
+	var stuckRx, stuckLines, stuckLooks int
+	stuckSince := time.Now()
+	loopStuck := func() bool {
+		rx, _ := ss.C.VerifQueues()
+		lines := ss.Mark()
+		if rx == 0 || rx != stuckRx || lines != stuckLines {
+			stuckRx, stuckLines, stuckLooks, stuckSince = rx, lines, 0, time.Now()
+			return false
+		}
+		stuckLooks++
+		if stuckLooks >= 200 && time.Since(stuckSince) >= 2500*time.Millisecond {
+			stuck = true
+		}
+		return stuck
+	}
 	stalled := false
 	// send writes one line; the pipe is synchronous, so a client that stopped reading (its
 	// receive queue is full because the handlers block) would block the harness too.
@@ -514,7 +568,13 @@ func RunConnected(nick, user string, evs []Ev, opt ConnOptions) (obs, oracle str
 					return false
 				}
 				return true
-			case <-time.After(100 * time.Millisecond):
+			case <-time.After(10 * time.Millisecond):
+				if loopStuck() {
+					return false
+				}
+				if time.Since(start) < 100*time.Millisecond {
+					continue
+				}
 				if !StateLockFree(ss.C, 150*time.Millisecond) {
 					wedged = true
 					return false
@@ -554,6 +614,12 @@ func RunConnected(nick, user string, evs []Ev, opt ConnOptions) (obs, oracle str
 				wedged = true
 				return false
 			}
+			if time.Since(sent) > 20*time.Millisecond {
+				if loopStuck() {
+					return false
+				}
+				time.Sleep(10 * time.Millisecond)
+			}
 			time.Sleep(100 * time.Microsecond)
 		}
 	}
@@ -585,7 +651,7 @@ func RunConnected(nick, user string, evs []Ev, opt ConnOptions) (obs, oracle str
 				time.Sleep(50 * time.Microsecond)
 			}
 		}
-		if ss.PanicCount() > 0 {
+		if panicCount() > 0 {
 			healthy = false // the handler may have died with the state lock held: do not wait for Stop
 			return "PANIC", fmt.Sprintf("panic: handler panicked around event %d (%s %q)", i, e.Cmd, e.Params)
 		}
@@ -599,8 +665,8 @@ func RunConnected(nick, user string, evs []Ev, opt ConnOptions) (obs, oracle str
 		}
 	}
 	// two barriers: an ERROR queued by a handler is behind at most the first one
-	alive := !gone && !wedged && !stalled && barrier() && barrier()
-	if ss.PanicCount() > 0 {
+	alive := !gone && !wedged && !stalled && !stuck && barrier() && barrier()
+	if panicCount() > 0 {
 		healthy = false
 		return "PANIC", "panic: a handler panicked during the history"
 	}
@@ -611,6 +677,10 @@ func RunConnected(nick, user string, evs []Ev, opt ConnOptions) (obs, oracle str
 	if stalled {
 		healthy = false
 		return "NOPONG", "liveness: the client stopped reading its socket for 15 s"
+	}
+	if stuck {
+		healthy = false
+		return "NOPONG", fmt.Sprintf("liveness: the event loop has stopped taking events: %d waiting in the receive queue, nothing taken and nothing written for 2.5 s, the PING is not answered (recovered application-handler panics so far: %d)", stuckRx, atomic.LoadInt64(&appPanics))
 	}
 	if alive {
 		if !StateLockFree(ss.C, 150*time.Millisecond) {
